@@ -174,6 +174,15 @@ def exc_sig(exc: BaseException) -> dict:
     return {"exc": type(exc).__name__, "frame": innermost_lib_frame(exc)}
 
 
+def probe_diff(a, b):
+    """|a - b| for the conditioning probes; a non-finite probe value means "no statement possible here" (inf)"""
+    import numpy as np  # pylint: disable=import-outside-toplevel
+
+    with np.errstate(invalid="ignore"):
+        d = np.abs(np.asarray(a, dtype=float) - np.asarray(b, dtype=float))
+    return np.where(np.isfinite(d), d, np.inf)
+
+
 def raised_in_field_routine(exc: BaseException) -> bool:
     """True if the innermost magpylib frame of the traceback is one of the closed-form field routines
     (magpylib/_src/fields/field_BH_*.py, special_*.py).  Such an exception is the subject of C15 (every finite input
